@@ -22,7 +22,20 @@ VERIFICATION_FAILURES = [
 RLIMIT_PAT = re.compile(r"Resource limit|rlimit|timed? ?out", re.I)
 
 def load_config():
-    return json.load(open(os.path.join(ROOT, "vc", "config.json")))
+    """vc/config.json merged with the fragments vc/config.d/*.json (lists are united, dicts merged)"""
+    cfg = json.load(open(os.path.join(ROOT, "vc", "config.json")))
+    d = os.path.join(ROOT, "vc", "config.d")
+    def merge(a, b):
+        for k, v in b.items():
+            if k in a and isinstance(a[k], dict) and isinstance(v, dict): merge(a[k], v)
+            elif k in a and isinstance(a[k], list) and isinstance(v, list):
+                for x in v:
+                    if x not in a[k]: a[k].append(x)
+            else: a[k] = v
+    if os.path.isdir(d):
+        for f in sorted(os.listdir(d)):
+            if f.endswith(".json"): merge(cfg, json.load(open(os.path.join(d, f))))
+    return cfg
 
 def run_verus(path, extra=None, timeout=1500):
     cmd = ["verus", path, "--output-json", "--time-expanded", "--multiple-errors", "30", "--error-format=json"]
